@@ -217,6 +217,18 @@ def num(tok):
 def ev(e, env, st):
     if isinstance(e, str):
         return num(e)
+    if e[0] in NUM_OPS and len(e) != 3 and all(isinstance(x, list) or is_number(x) for x in e[1:]) and len(e) >= 2 \
+            and not (len(e) == 2 and e[0] != "-"):
+        # PDDL 2.1 extras outside the library's fragment: unary minus, n-ary + and *
+        vals = [ev(x, env, st) for x in e[1:]]
+        if len(vals) == 1:
+            return -vals[0]
+        if e[0] in ("+", "*"):
+            acc = vals[0]
+            for v in vals[1:]:
+                acc = acc + v if e[0] == "+" else acc * v
+            return acc
+        raise Undefined("n-ary - or /")
     if e[0] in NUM_OPS and len(e) == 3:
         a, b = ev(e[1], env, st), ev(e[2], env, st)
         if e[0] == "+":
